@@ -21,12 +21,18 @@ pub fn route_str(segs: &[String]) -> String {
     if segs.is_empty() { "/".to_string() } else { segs.iter().map(|s| format!("/{s}")).collect() }
 }
 
-pub fn all_routes(max_depth: usize) -> Vec<Vec<String>> {
+/// static names that differ from `a` by a continuation with a byte *below* `/` (`-`, `.`) or above it (`_`): orderings of
+/// sibling patterns against the rest of a path (which continues with `/`) depend on which side of `/` the next byte lies
+pub const PUNCT_SEGS: [&str; 5] = ["a", "a-b", "a.b", "a_b", ":p"];
+
+pub fn all_routes(max_depth: usize) -> Vec<Vec<String>> { all_routes_over(&SEGS, max_depth) }
+
+pub fn all_routes_over(segs: &[&str], max_depth: usize) -> Vec<Vec<String>> {
     let mut out = vec![vec![]];
     let mut frontier: Vec<Vec<String>> = vec![vec![]];
     for _ in 0..max_depth {
         let mut next = vec![];
-        for r in &frontier { for s in SEGS { let mut n = r.clone(); n.push(s.to_string()); next.push(n); } }
+        for r in &frontier { for s in segs { let mut n = r.clone(); n.push(s.to_string()); next.push(n); } }
         out.extend(next.iter().cloned());
         frontier = next;
     }
@@ -462,6 +468,34 @@ pub fn run(ctx: &mut Ctx) {
             }
         } } } }
     }
+    // fourth round: sibling names continued by punctuation (both tiers): every pair of routes of depth <= 2 over PUNCT_SEGS that
+    // has a punctuated name, GET only (thorough: also GET+POST against POST), and every triple of depth <= 1
+    {
+        let routes = all_routes_over(&PUNCT_SEGS, 2);
+        let punct = |r: &Vec<String>| r.iter().any(|s| s.contains(['-', '.', '_']));
+        let assignments: Vec<(usize, usize)> = if quick { vec![(0, 0)] } else { vec![(0, 0), (2, 1)] };
+        for combo in combinations(routes.len(), 2) {
+            let (a, b) = (&routes[combo[0]], &routes[combo[1]]);
+            if !punct(a) && !punct(b) { continue }
+            for &(ma, mb) in &assignments {
+                let set = vec![RouteSpec { segs: a.clone(), methods: msets[ma].clone() }, RouteSpec { segs: b.clone(), methods: msets[mb].clone() }];
+                let key: Vec<_> = set.iter().map(|r| (r.segs.clone(), r.methods.clone())).collect();
+                if !done_sets.insert(key) { continue }
+                if !ctx.mine() { continue }
+                if ctx.out_of_time() { break }
+                check_set(ctx, &set, !quick, None);
+            }
+        }
+        let shallow = all_routes_over(&PUNCT_SEGS, 1);
+        for combo in combinations(shallow.len(), 3) {
+            let set: Vec<RouteSpec> = combo.iter().map(|&i| RouteSpec { segs: shallow[i].clone(), methods: msets[0].clone() }).collect();
+            if !set.iter().any(|r| punct(&r.segs)) { continue }
+            let key: Vec<_> = set.iter().map(|r| (r.segs.clone(), r.methods.clone())).collect();
+            if !done_sets.insert(key) { continue }
+            if !ctx.mine() { continue }
+            check_set(ctx, &set, !quick, None);
+        }
+    }
     // single-route applications with every non-empty subset of the five registrable methods
     let five = ["GET", "PUT", "POST", "PATCH", "DELETE"];
     for route in all_routes(if quick { 1 } else { 2 }) {
@@ -473,7 +507,7 @@ pub fn run(ctx: &mut Ctx) {
         }
     }
     ctx.extra.insert("rule".into(), json!("case = (route set + method sets, declaration shape, registration order, request); configurations are built by the real registration/finalization code, requests go through the real Request::read / Router::handle / Response::send; non-trivial = the route set has a param route or more than one route; collision = a request segment is a strict byte extension or a strict prefix of a static pattern at the same position (the byte-prefix shortcut of the radix matcher)"));
-    ctx.extra.insert("bounds".into(), json!({"segments": SEGS, "plans(depth,set size)": if quick { json!([[2,1],[2,2],[3,1]]) } else { json!([[3,1],[3,2],[2,3]]) }, "method_sets": ["GET","POST","GET+POST", "all 31 subsets on single-route apps"], "thinning": "pairs of deep routes: method-set assignments equal or {one method, both methods}; two depth-3 routes only when their first segments can meet", "shapes": ["flat","split","mount1","mount2","nested","split-mount","inline","mount-one(i)","mount-root(i)"], "quick_extra": "all pairs of depth-3 routes sharing their first two segments", "orders": if quick { "all permutations up to 3 items, 3 orders beyond" } else { "all permutations up to 4 items" },
+    ctx.extra.insert("bounds".into(), json!({"segments": SEGS, "plans(depth,set size)": if quick { json!([[2,1],[2,2],[3,1]]) } else { json!([[3,1],[3,2],[2,3]]) }, "method_sets": ["GET","POST","GET+POST", "all 31 subsets on single-route apps"], "thinning": "pairs of deep routes: method-set assignments equal or {one method, both methods}; two depth-3 routes only when their first segments can meet", "shapes": ["flat","split","mount1","mount2","nested","split-mount","inline","mount-one(i)","mount-root(i)"], "quick_extra": "all pairs of depth-3 routes sharing their first two segments", "punctuation_sweep": {"segments": PUNCT_SEGS, "sets": "every pair of routes of depth <= 2 with a punctuated name; every triple of depth <= 1"}, "orders": if quick { "all permutations up to 3 items, 3 orders beyond" } else { "all permutations up to 4 items" },
         "requests": "route sets of depth <=2: all paths of depth <= max+1 over the per-set segment alphabet x trailing-slash variants x 7 methods; sets containing a depth-3 route: every route instance (x 5 methods), all its single-segment mutations, one segment dropped / appended (x GET, POST, HEAD)"}));
     ctx.traces_validated = ctx.transitions;
 }
